@@ -80,6 +80,7 @@ class KernelSym(Evaluator):
         self.stores = []     # (target text, index tuple, value, guard stack)
         self.guards = []
         self.frames = []     # one per enclosing loop: {"base": len(guards) at loop entry, "cont": guards added by `if c: continue` clauses}
+        self.path = []       # conditions assumed on THIS path of the kernel (an if/else on a symbolic test: both paths are explored)
 
     def ev_Name(self, node):
         if node.id in self.env:
@@ -304,6 +305,20 @@ class KernelSym(Evaluator):
             if isinstance(t, bool):
                 self.exec_block(st.body if t else st.orelse)       # a _SkipRest from a decided branch ends the enclosing block too
                 return
+            if isinstance(t, (Conj, Cmp)) and st.orelse:
+                # a two-way branch on a symbolic comparison (a fast path for small cells): each way is a path of its own, explored by
+                # run_kernel_paths; the assumption is recorded as a PATH condition (not as a guard of the stores)
+                from ..models import decide
+                way = decide("kernel branch %s" % norm(st.test), "branch %s" % norm(st.test), per_occurrence=False)
+                terms = t.terms if isinstance(t, Conj) else [t]
+                if way:
+                    self.path.extend(terms)
+                elif len(terms) == 1:
+                    self.path.append(Cmp(self.NEGATED[terms[0].op], terms[0].a, terms[0].b))
+                else:
+                    self.path.append(Cmp("not all of", tuple(terms), None))
+                self.exec_block(st.body if way else st.orelse)
+                return
             if isinstance(t, (Conj, Cmp)) and not st.orelse:
                 self.guards.append(t if isinstance(t, Conj) else Conj([t]))
                 try:
@@ -353,6 +368,16 @@ def run_kernel(tree, ndim_mode=3):
     except ReturnValue as r:
         ev.returned = r.value
     return fi, ev, env
+
+
+def run_kernel_paths(tree, ndim_mode=3):
+    """every path of the kernel through its two-way branches on symbolic tests: [(label, fi, ev, env)]"""
+    from ..models import explore
+    out = []
+    for assume, (fi, ev, env) in explore(lambda: run_kernel(tree, ndim_mode), limit=4):
+        label = "" if not assume else " [path: %s]" % ", ".join(repr(t) for t in ev.path)
+        out.append((label, fi, ev, env))
+    return out
 
 
 # =============================================================================== iteration space of the cell loop(s)
